@@ -202,7 +202,8 @@ def special_scenarios(years=common.YEARS):
         # two Forms 1098 with different amounts, itemizing
         two1098 = {'number_1098': '2', 'itemize': 'yes', '1098:0.box_1': '4100.00', '1098:1.box_1': '999.00', '1098:0.box_6': '0.00', '1098:1.box_6': '120.50',
                    'loan_limitations': 'no', 'charitable_other_than_cash_check': '0.00', 'principal_abode_us': 'yes', 'general_sales_tax': 'no',
-                   'state_local_real_estate_taxes': '9000.00', 'charitable_cash_check': '6000.00'}
+                   'state_local_real_estate_taxes': '9000.00', 'charitable_cash_check': '6000.00', '1098:0.box_5': '650.00', '1098:1.box_5': '0.00',
+                   'mortgage_insurance_premiums_special': 'no'}
         out.append((y, ['1040'], 9004, dict(base, status='Single', wages=90000, itemize=True, overrides=two1098)))
         # two pension (non-IRA) Forms 1099-R with different taxable amounts
         pens = {'number_1099-r': '2', '1099-r:0.box_1': '7000.00', '1099-r:0.box_2a': '6500.00', '1099-r:1.box_1': '30000.00', '1099-r:1.box_2a': '24000.00',
